@@ -201,6 +201,7 @@ type State struct {
 	ghost  map[string]SVal
 	events []string
 	cuts   map[string]bool // loop headers already cut on this path: key = frameid:blockindex
+	lockSnap *State        // state right after the most recent mutex acquisition on this path (atlock)
 	visits map[string]int  // visits of unrolled (contract-less, constant-bound) loop headers on this path
 	defers []deferred
 	keep   map[int]bool // ids of path-condition entries that define ghost atoms: never dropped by a `forget` cut
@@ -217,6 +218,7 @@ func (s *State) Clone() *State {
 		n.mem[k] = v
 	}
 	n.pc = append([]*Term(nil), s.pc...)
+	n.lockSnap = s.lockSnap
 	for k, v := range s.ghost {
 		n.ghost[k] = v
 	}
